@@ -203,6 +203,8 @@ func vrtSymURL(name string) (u, scheme, host, path, query, frag string, parses b
 	vrtAssume(vrtMatches(frag, "querychars"))
 	// a host needs a scheme in front of it to be read as one
 	vrtAssume(scheme != "" || host == "")
+	// ... and a path behind a host starts with a slash (otherwise it reads as part of the host)
+	vrtAssume(host == "" || path == "" || vrtHasPrefix(path, "/"))
 	return vrtURL(scheme, host, path, query, frag), scheme, host, path, query, frag, true
 }
 
@@ -280,6 +282,12 @@ func HarnessC19Dynamic() {
 		}
 	}
 	vrtReqHeader(rb, hdrName, vals)
+	if custom && vrtBool("unconfigured.forwarded?") {
+		// with custom headers configured the standard Forwarded header is not a configured source
+		h := vrtStr("unconfigured.forwarded.host")
+		vrtAssume(vrtMatches(h, "hosttoken"))
+		vrtReqHeader(rb, "Forwarded", []string{"host=" + h})
+	}
 	// other request-derived components must not flow in
 	vrtReqHeader(rb, "X-Forwarded-Proto", []string{vrtStr("req.proto")})
 	r := vrtReqBuild(rb)
